@@ -3,8 +3,8 @@ from checks_path import *  # noqa
 from conc_common import run_conc, replay_conc
 
 PROPERTY = 'C16'
-GEN = ['LogicVerify']
-PROPS = ['SalsaVerif.Props.C16', 'SalsaVerif.Props.GenLogicVerify']
+GEN = ['LogicVerify', 'LogicDG']
+PROPS = ['SalsaVerif.Props.C16', 'SalsaVerif.Props.GenLogicVerify', 'SalsaVerif.Props.GenLogicDG']
 EXPLANATION = ('Theorems about a client layer (threads with frame stacks executing a ranked = acyclic program: hot hit / try-claim / '
                're-check / exec / request sub-key / publish / release / wake) on top of the Lean sync-table + dependency-graph model, for any '
                'number of threads and keys and every interleaving: a thread only ever waits for a thread executing a strictly lower rank '
